@@ -20,7 +20,7 @@ def make_data(n, dims, grid, seed, outlier_prob):
     data = []
     for i in range(n):
         tab = rs.randint(1, 9, size=(dims, grid)).astype(float)
-        op = compute_outlier_prob(outlier_prob, 1)
+        op = compute_outlier_prob(outlier_prob, (1, 3, 2)[i % 3])     # cluster sizes 1-3, as a clustered input gives
         data.append(DataPoint(i, np.ascontiguousarray(np.log(tab)), name="m%d" % i, outlier_prob=op[0], outlier_prob_not=op[1]))
     return data
 
